@@ -76,7 +76,7 @@ func registry() map[string]*propSpec {
 		"C02": {Scenario: "arshal", Make: func() scen.Scenario { return &scen.ArshalMarshal{Mode: "c02"} }, QuickRuns: 160000, ThorRuns: 16000000, Chunk: 10000, ResetCache: true,
 			Rule: "each run = one Go value of a reflect-built random type (scalars incl. NaN/Inf and ill-formed strings, bytes, raw values holding arbitrary bytes, pointers, slices, arrays, maps with string/int/float/bool/TextMarshaler keys, structs with random tags incl. omitempty/omitzero/string/embed and >64 fields) with scripted peers (MarshalJSONTo / MarshalJSON / MarshalText / AppendText methods on value and pointer receivers, MarshalToFunc / MarshalFunc) executing drawn behaviours (one value, error, ErrUnsupported before/after use, zero or two values, open container, close the parent container, malformed bytes, re-entry, Reset, panic, ignored rejected calls) x option set, marshalled through Marshal, MarshalWrite (faulty writer) and MarshalEncode (inside a token context); nil error => output is exactly one value valid under the effective options by the independent recognizer. distinct = hash of (type, behaviour kinds present, output size class, context, options); non-trivial = a misbehaving peer, a write fault or a panic landed in the run.",
 			Real: realAll, Stub: append([]string{"user marshal methods and functions (scripted peers)"}, stubIO...)},
-		"C06": {Scenario: "enc", Make: func() scen.Scenario { return &scen.Enc{Mode: "c06"} }, QuickRuns: 200000, ThorRuns: 10000000,
+		"C06": {Scenario: "enc", Make: func() scen.Scenario { return &scen.Enc{Mode: "c06"} }, QuickRuns: 200000, ThorRuns: 6000000,
 			Rule: "each run = a sequence of WriteToken/WriteValue calls drawn legal with p=0.7 given the reference push-down model (all token kinds, ill-formed strings, NaN/Inf, zero token, raw values valid/truncated/duplicate-bearing/garbage, deep mode 9998..10001) x option set; every call's verdict vs the documented grammar, observers after every call vs the model, rejected calls must not move observers, twin run with the rejected calls removed must match, delivered bytes at depth 0 vs the reference serializer. distinct = hash of (call 2-grams, number of rejected calls, final depth, options); non-trivial = at least one rejected call.",
 			Real: realAll, Stub: stubIO},
 		"C14": {Scenario: "arshal-merge", Make: func() scen.Scenario { return &scen.MergeChain{} }, QuickRuns: 300000, ThorRuns: 12000000, Chunk: 10000, ResetCache: true,
@@ -93,10 +93,10 @@ func registry() map[string]*propSpec {
 			Real: realAll, Stub: append([]string{"user marshal methods and functions (scripted peers)", "task scheduling (cooperative, one task at a time, switch points at seams)"}, stubIO...)},
 		"C16": {Scenario: "dec+enc", Make: func() scen.Scenario {
 			return &scen.Multi{Parts: []scen.Part{{W: 6, S: &scen.Dec{Mode: "c16"}}, {W: 2, S: &scen.Enc{Mode: "c16"}}, {W: 1, S: &scen.Enc{Mode: "c07"}}, {W: 2, S: &scen.SemErr{}}, {W: 1, S: &scen.PointerAlgebra{}}}}
-		}, QuickRuns: 200000, ThorRuns: 12000000,
+		}, QuickRuns: 200000, ThorRuns: 3000000,
 			Rule: "dec scenario with the independent reference recognizer armed: observers after every call vs reference push-down model; rejected inputs vs the offset/pointer relation. distinct as for C05; non-trivial = chunked read schedule landed inside the run.",
 			Real: realAll, Stub: stubIO},
-		"C01": {Scenario: "dec", Make: func() scen.Scenario { return &scen.Dec{Mode: "c01"} }, QuickRuns: 200000, ThorRuns: 8000000,
+		"C01": {Scenario: "dec", Make: func() scen.Scenario { return &scen.Dec{Mode: "c01"} }, QuickRuns: 200000, ThorRuns: 2000000,
 			Rule: "dec scenario, mutation-heavy inputs, verdict of token/value/mixed loops over chunked streams vs the independent recognizer. distinct as for C05.",
 			Real: realAll, Stub: stubIO},
 	}
